@@ -620,7 +620,10 @@ static void sample_case( const std::string& rule, const std::string& bytes )
    const u8* b = reinterpret_cast< const u8* >( bytes.data() );
    memcpy( slot( bytes.size() ), b, bytes.size() );
    const Expect x = oracle_expect( e, slot( bytes.size() ), bytes.size() );
+   g_cur_n = bytes.size();
+   g_cur_rule = &e;  // a fault while producing a sample is a library fault like any other
    const Res r = e.run( reinterpret_cast< const char* >( slot( bytes.size() ) ), bytes.size() );
+   g_cur_rule = nullptr;
    vf::sample( "{\"rule\":\"" + vf::jesc( e.name ) + "\",\"input_hex\":\"" + vf::hex( bytes ) + "\",\"expected\":\"" + outcome( x.ok, x.consumed ) + ( x.ok ? "" : std::string( " (" ) + x.why + ")" ) + "\",\"observed\":\"" + outcome( r.ok, r.consumed ) + "\"}", 8 );
 }
 
